@@ -755,6 +755,14 @@ func (ctx drawContext) drawBorderImage(box *bo.BoxFields) {
 	borderBottom = computeWidthAdjustment(widths[2], borderBottom, sliceBottom, h)
 	borderLeft = computeWidthAdjustment(widths[3], borderLeft, sliceLeft, w)
 
+	// If two opposite border-image-width offsets are large enough that they
+	// overlap, all the offsets are proportionally reduced until they no
+	// longer overlap.
+	// See https://drafts.csswg.org/css-backgrounds-3/#border-image-width
+	if f := utils.MinF(w/(borderLeft+borderRight), h/(borderTop+borderBottom)); f < 1 {
+		borderTop, borderRight, borderBottom, borderLeft = borderTop*f, borderRight*f, borderBottom*f, borderLeft*f
+	}
+
 	// repeatX="stretch", repeatY="stretch",
 	// scaleX=None, scaleY=None
 	drawBorderImage := func(x, y, width, height, sliceX, sliceY,
@@ -766,7 +774,8 @@ func (ctx drawContext) drawBorderImage(box *bo.BoxFields) {
 			nRepeatsX, nRepeatsY int
 			extraDx, extraDy     fl
 		)
-		if intrinsicWidth == 0 || width == 0 || sliceWidth == 0 {
+		// a part without extent (or with a negative one, by rounding) is not drawn
+		if intrinsicWidth == 0 || width <= 0 || sliceWidth <= 0 {
 			scaleX = 0
 		} else {
 			extraDx = 0
@@ -793,7 +802,7 @@ func (ctx drawContext) drawBorderImage(box *bo.BoxFields) {
 			}
 		}
 
-		if intrinsicHeight == 0 || height == 0 || sliceHeight == 0 {
+		if intrinsicHeight == 0 || height <= 0 || sliceHeight <= 0 {
 			scaleY = 0
 		} else {
 			extraDy = 0
